@@ -1192,3 +1192,439 @@ Proof.
   - rewrite nm_del_same in H0. discriminate.
   - rewrite nm_del_other in H0 by exact Hn. apply (i_name _ _ HI n0 i H0).
 Qed.
+
+Lemma delete_chg e s hc i s' :
+  wf_env e -> Inv e s -> gty s i = Some hc -> delete e s hc i = inl s' ->
+  exists ci d, Chg e s s' i hc ci (Some d) None.
+Proof.
+  intros We HI Hty H. unfold delete in H.
+  destruct (aget N.eqb i (s_data s)) as [d|] eqn:Ed; [|discriminate].
+  destruct (class_info e hc) as [ci|] eqn:Eci; simpl in H; [|discriminate].
+  apply class_info_ok in Eci. destruct (We hc ci Eci) as [Hnd Hnr].
+  destruct (as_name (aget N.eqb (c_name ci) d)) as [on|] eqn:En; simpl in H; [|discriminate].
+  apply as_name_ok in En.
+  destruct (upd_name e s i hc ci on None) as [t|] eqn:Et; simpl in H; [|discriminate].
+  destruct (collect_refs d (c_refs ci)) as [orig|] eqn:Ec; simpl in H; [|discriminate].
+  destruct (upd_refs i hc (c_refs ci) orig [] (s_refs s)) as [rf|] eqn:Eu; simpl in H; [|discriminate].
+  destruct (amem N.eqb i (s_type s)); [|discriminate].
+  inversion H; subst s'; clear H.
+  exists ci, d.
+  destruct (refs_chg e s i hc ci (Some d) None orig [] rf HI Eci Hnd Ed Hty Eu) as [Hr1 Hr2].
+  { intros f Hf. right. split; [|reflexivity]. simpl.
+    apply (proj1 (collect_refs_lk d (c_refs ci) orig Ec f) Hf). }
+  constructor; simpl.
+  - exact Eci.
+  - exact Ed.
+  - exact Hty.
+  - intro j. unfold gdata. simpl. apply Ng_del_if.
+  - intro j. unfold gty. simpl. apply Ng_del_if.
+  - right. rewrite names3_eta. rewrite En. apply upd_name_spec. exact Et.
+  - exact Hr1.
+  - exact Hr2.
+Qed.
+
+Lemma with_names_data t s : s_data (with_names t s) = s_data s /\ s_type (with_names t s) = s_type s
+                            /\ s_refs (with_names t s) = s_refs s.
+Proof. destruct t; simpl; auto. Qed.
+
+(* set_obj_field / unset_obj_field: one field f of a live object changes to v *)
+Lemma field_chg e s i c ci d f v names rf :
+  wf_env e -> Inv e s -> gty s i = Some c -> gdata s i = Some d -> cinfo_of e c = Some ci ->
+  (if N.eqb f (c_name ci)
+   then exists on nn t, as_name (aget N.eqb f d) = inl on /\ as_name v = inl nn
+                        /\ upd_name e s i c ci on nn = inl t /\ names = Some t
+   else names = None) ->
+  (if smem f (c_refs ci)
+   then exists orig new, upd_refs i c (c_refs ci) orig new (s_refs s) = inl rf
+          /\ lk f orig = frefs d f /\ lk f new = frefs (dset d f v) f
+          /\ (forall f', f' <> f -> lk f' orig = [] /\ lk f' new = [])
+   else rf = s_refs s) ->
+  Chg e s (with_names names
+             {| s_data := aset N.eqb i (dset d f v) (s_data s); s_type := s_type s;
+                s_name := s_name s; s_short := s_short s; s_glob := s_glob s; s_refs := rf |})
+      i c ci (Some d) (Some (dset d f v)).
+Proof.
+  intros We HI Hty Hd Hci Hn Hr. destruct (We c ci Hci) as [Hnd Hnr].
+  set (s0 := {| s_data := aset N.eqb i (dset d f v) (s_data s); s_type := s_type s;
+                s_name := s_name s; s_short := s_short s; s_glob := s_glob s; s_refs := rf |}).
+  destruct (with_names_data names s0) as [Wd [Wt Wr]].
+  (* the reference part *)
+  assert (Hrefs : (forall t k r, rin rf t k r <->
+      ((r = i /\ fst k = c /\ In (snd k) (c_refs ci)) /\ In t (orefs (Some (dset d f v)) (snd k)))
+      \/ (~ (r = i /\ fst k = c /\ In (snd k) (c_refs ci)) /\ rin (s_refs s) t k r))
+      /\ rne rf).
+  { destruct (smem f (c_refs ci)) eqn:Es.
+    - destruct Hr as [orig [new [Eu [Eo [En Eoth]]]]].
+      apply (refs_chg e s i c ci (Some d) (Some (dset d f v)) orig new rf HI Hci Hnd Hd Hty Eu).
+      intros f' Hf'. destruct (N.eq_dec f' f) as [->|Hne].
+      + right. simpl. auto.
+      + left. destruct (Eoth f' Hne) as [A B]. simpl. split; [exact A|]. split; [exact B|].
+        apply frefs_dset_other. exact Hne.
+    - subst rf. apply smem_nIn in Es.
+      apply (refs_chg e s i c ci (Some d) (Some (dset d f v)) [] [] (s_refs s) HI Hci Hnd Hd Hty
+                      (upd_refs_nil _ _ _ _)).
+      intros f' Hf'. left. simpl. split; [reflexivity|]. split; [reflexivity|].
+      apply frefs_dset_other. intro E. subst f'. contradiction. }
+  destruct Hrefs as [Hr1 Hr2].
+  constructor.
+  - exact Hci.
+  - exact Hd.
+  - exact Hty.
+  - intro j. unfold gdata. rewrite Wd. simpl. apply Ng_set_if.
+  - intro j. unfold gty. rewrite Wt. simpl. unfold gty in Hty.
+    destruct (N.eqb j i) eqn:E; [apply N.eqb_eq in E; subst j; exact Hty | reflexivity].
+  - destruct (N.eqb f (c_name ci)) eqn:Ef.
+    + apply N.eqb_eq in Ef. subst f. destruct Hn as [on [nn [t [A [B [C D]]]]]]. subst names.
+      right. simpl. rewrite names3_eta. apply as_name_ok in A. simpl.
+      rewrite A, (name_of_dset_same ci d v nn B). apply upd_name_spec. exact C.
+    + apply N.eqb_neq in Ef. subst names. left. simpl.
+      repeat split; try reflexivity. symmetry. apply name_of_dset_other. exact Ef.
+  - rewrite Wr. simpl. exact Hr1.
+  - rewrite Wr. simpl. exact Hr2.
+Qed.
+
+Lemma gdata_some_gty e s i d : Inv e s -> gdata s i = Some d -> exists c, gty s i = Some c.
+Proof.
+  intros HI H. destruct (gty s i) as [c|] eqn:E; [exists c; reflexivity|].
+  apply (i_dom _ _ HI) in E. congruence.
+Qed.
+
+Lemma set_field_chg e s i f v s' :
+  wf_env e -> Inv e s -> set_field e s i f v = inl s' ->
+  exists c ci d, Chg e s s' i c ci (Some d) (Some (dset d f v)).
+Proof.
+  intros We HI H. unfold set_field in H.
+  destruct (aget N.eqb i (s_data s)) as [d|] eqn:Ed; [|discriminate].
+  destruct (aget N.eqb i (s_type s)) as [c|] eqn:Et; [|discriminate].
+  destruct (class_info e c) as [ci|] eqn:Eci; simpl in H; [|discriminate].
+  apply class_info_ok in Eci.
+  destruct (negb (f <? c_nf ci)); [discriminate|].
+  match type of H with (bind ?x _) = _ => destruct x as [newl|] eqn:E1; simpl in H; [|discriminate] end.
+  match type of H with (bind ?x _) = _ => destruct x as [names|] eqn:E2; simpl in H; [|discriminate] end.
+  match type of H with (bind ?x _) = _ => destruct x as [rf|] eqn:E3; simpl in H; [|discriminate] end.
+  inversion H; subst s'; clear H.
+  exists c, ci, d. apply (field_chg e s i c ci d f v names rf We HI Et Ed Eci).
+  - destruct (N.eqb f (c_name ci)).
+    + destruct (as_name (aget N.eqb f d)) as [on|] eqn:A; simpl in E2; [|discriminate].
+      destruct (as_name v) as [nn|] eqn:B; simpl in E2; [|discriminate].
+      destruct (upd_name e s i c ci on nn) as [t|] eqn:C; simpl in E2; [|discriminate].
+      inversion E2. exists on, nn, t. auto.
+    + inversion E2. reflexivity.
+  - destruct (smem f (c_refs ci)).
+    + destruct v as [x|]; [|discriminate].
+      destruct (unreduced_refs x) as [l|] eqn:A; simpl in E1; [|discriminate].
+      inversion E1; subst newl; clear E1. apply unreduced_refs_ok in A. subst x.
+      match type of E3 with (bind ?x _) = _ => destruct x as [orig|] eqn:B; simpl in E3; [|discriminate] end.
+      exists orig, [(f, l)]. split; [exact E3|].
+      assert (Hl : forall l0 f', f' <> f -> lk f' [(f, l0)] = []).
+      { intros l0 f' Hne. rewrite lk_cons. apply N.eqb_neq in Hne. rewrite Hne. reflexivity. }
+      split; [|split].
+      * destruct (aget N.eqb f d) as [ov|] eqn:Eo.
+        -- destruct (reduced_refs ov) as [ol|] eqn:Er; simpl in B; [|discriminate].
+           inversion B; subst orig. apply reduced_refs_ok in Er. subst ov.
+           rewrite lk_cons, N.eqb_refl. unfold frefs. rewrite Eo. reflexivity.
+        -- inversion B; subst orig. unfold frefs. rewrite Eo. reflexivity.
+      * rewrite lk_cons, N.eqb_refl. unfold frefs, dset. rewrite Ng_set_same. reflexivity.
+      * intros f' Hne. split; [|apply Hl; exact Hne].
+        destruct (aget N.eqb f d) as [ov|].
+        -- destruct (reduced_refs ov) as [ol|]; simpl in B; [|discriminate].
+           inversion B; subst orig. apply Hl; exact Hne.
+        -- inversion B; subst orig. reflexivity.
+    + inversion E1; subst newl. inversion E3. reflexivity.
+Qed.
+
+Lemma unset_field_chg e s i f s' :
+  wf_env e -> Inv e s -> unset_field e s i f = inl s' ->
+  s' = s \/ exists c ci d, Chg e s s' i c ci (Some d) (Some (dset d f None)).
+Proof.
+  intros We HI H. unfold unset_field in H.
+  destruct (aget N.eqb i (s_data s)) as [d|] eqn:Ed; [|inversion H; auto].
+  destruct (aget N.eqb i (s_type s)) as [c|] eqn:Et; [|discriminate].
+  destruct (class_info e c) as [ci|] eqn:Eci; simpl in H; [|discriminate].
+  apply class_info_ok in Eci.
+  destruct (negb (f <? c_nf ci)); [discriminate|].
+  destruct (aget N.eqb f d) as [ov|] eqn:Eo; [|inversion H; auto].
+  match type of H with (bind ?x _) = _ => destruct x as [names|] eqn:E2; simpl in H; [|discriminate] end.
+  match type of H with (bind ?x _) = _ => destruct x as [rf|] eqn:E3; simpl in H; [|discriminate] end.
+  inversion H; subst s'; clear H.
+  right. exists c, ci, d.
+  change (adel N.eqb f d) with (dset d f None).
+  apply (field_chg e s i c ci d f None names rf We HI Et Ed Eci).
+  - destruct (N.eqb f (c_name ci)).
+    + simpl in E2. destruct ov as [n|l|p]; simpl in E2; try discriminate.
+      destruct (upd_name e s i c ci (Some n) None) as [t|] eqn:C; simpl in E2; [|discriminate].
+      inversion E2. exists (Some n), None, t. rewrite Eo. auto.
+    + inversion E2. reflexivity.
+  - destruct (smem f (c_refs ci)).
+    + destruct (reduced_refs ov) as [ol|] eqn:Er; simpl in E3; [|discriminate].
+      apply reduced_refs_ok in Er. subst ov.
+      exists [(f, ol)], []. split; [exact E3|]. split; [|split].
+      * rewrite lk_cons, N.eqb_refl. unfold frefs. rewrite Eo. reflexivity.
+      * unfold frefs, dset. rewrite Ng_del_same. reflexivity.
+      * intros f' Hne. split; [|reflexivity]. rewrite lk_cons. apply N.eqb_neq in Hne. rewrite Hne. reflexivity.
+    + inversion E3. reflexivity.
+Qed.
+
+(* ---- update_obj: invariant of the loop over the updates mapping ---- *)
+Definition LI (e : env) (s : schema) (i : id) (hc : cls) (ci : cinfo) (d0 : data)
+           (P : list fld) (a : uacc) : Prop :=
+  (forall f, ~ In f P -> aget N.eqb f (u_data a) = aget N.eqb f d0
+                         /\ aget N.eqb f (u_orig a) = None /\ aget N.eqb f (u_new a) = None)
+  /\ (forall f, In f P -> In f (c_refs ci) ->
+                lk f (u_orig a) = frefs d0 f /\ lk f (u_new a) = frefs (u_data a) f)
+  /\ (In (c_name ci) P ->
+      exists t, u_names a = Some t /\ names_upd e s i hc ci (name_of ci d0) (name_of ci (u_data a)) t)
+  /\ (~ In (c_name ci) P -> u_names a = None).
+
+Lemma lk_none f (m : list (fld * list id)) : aget N.eqb f m = None -> lk f m = [].
+Proof. unfold lk. intros ->. reflexivity. Qed.
+
+Lemma upd_loop_spec e s i hc ci d0 : forall u a a' P,
+  upd_loop e s i hc ci u a = inl a' ->
+  NoDup (map fst u) -> (forall f, In f (map fst u) -> ~ In f P) ->
+  LI e s i hc ci d0 P a ->
+  exists P', (forall f, In f P' <-> In f P \/ In f (map fst u)) /\ LI e s i hc ci d0 P' a'.
+Proof.
+  induction u as [|[f v] u IH]; intros a a' P H Hnd Hdisj HL; simpl in H.
+  - inversion H; subst. exists P. split; [intro; simpl; tauto | exact HL].
+  - destruct (negb (f <? c_nf ci)); [discriminate|].
+    match type of H with (bind ?x _) = _ => destruct x as [names|] eqn:E1; simpl in H; [|discriminate] end.
+    match type of H with (bind ?x _) = _ => destruct x as [on'|] eqn:E2; simpl in H; [|discriminate] end.
+    inversion Hnd as [|? ? Hnotin Hnd']; subst.
+    assert (HfP : ~ In f P) by (apply Hdisj; left; reflexivity).
+    destruct HL as [L1 [L2 [L3 L4]]].
+    destruct (L1 f HfP) as [Lf1 [Lf2 Lf3]].
+    apply (IH _ a' (f :: P)) in H.
+    + destruct H as [P' [HP' HL']]. exists P'. split; [|exact HL'].
+      intro f0. rewrite HP'. simpl. tauto.
+    + exact Hnd'.
+    + intros f0 Hin [E|Hc]; [subst f0; contradiction|]. apply (Hdisj f0); [right; exact Hin | exact Hc].
+    + (* the invariant after one iteration *)
+      unfold LI. cbn [u_data u_names u_orig u_new].
+      (* what the step did to orig/new *)
+      assert (Hon : (In f (c_refs ci) ->
+                       lk f (fst on') = frefs d0 f /\ lk f (snd on') = frefs (dset (u_data a) f v) f)
+                    /\ (forall f0, f0 <> f -> aget N.eqb f0 (fst on') = aget N.eqb f0 (u_orig a)
+                                              /\ aget N.eqb f0 (snd on') = aget N.eqb f0 (u_new a))).
+      { destruct (smem f (c_refs ci)) eqn:Es.
+        - destruct v as [x|].
+          + destruct (unreduced_refs x) as [l|] eqn:A; simpl in E2; [|discriminate].
+            apply unreduced_refs_ok in A. subst x.
+            destruct (aget N.eqb f (u_data a)) as [ov|] eqn:Eo.
+            * destruct (reduced_refs ov) as [ol|] eqn:Er; simpl in E2; [|discriminate].
+              apply reduced_refs_ok in Er. subst ov. inversion E2; subst on'; clear E2. cbn [fst snd]. split.
+              -- intros _. rewrite !lk_aset, N.eqb_refl. unfold frefs, dset.
+                 rewrite <- Lf1, Ng_set_same. auto.
+              -- intros f0 Hne. rewrite !Ng_set_other by exact Hne. auto.
+            * inversion E2; subst on'; clear E2. cbn [fst snd]. split.
+              -- intros _. rewrite lk_aset, N.eqb_refl. rewrite (lk_none _ _ Lf2).
+                 unfold frefs, dset. rewrite <- Lf1, Ng_set_same. auto.
+              -- intros f0 Hne. rewrite Ng_set_other by exact Hne. auto.
+          + destruct (aget N.eqb f (u_data a)) as [ov|] eqn:Eo.
+            * destruct (reduced_refs ov) as [ol|] eqn:Er; simpl in E2; [|discriminate].
+              apply reduced_refs_ok in Er. subst ov. inversion E2; subst on'; clear E2. cbn [fst snd]. split.
+              -- intros _. rewrite lk_aset, N.eqb_refl. rewrite (lk_none _ _ Lf3).
+                 unfold frefs, dset. rewrite <- Lf1, Ng_del_same. auto.
+              -- intros f0 Hne. rewrite Ng_set_other by exact Hne. auto.
+            * inversion E2; subst on'; clear E2. cbn [fst snd]. split.
+              -- intros _. rewrite (lk_none _ _ Lf2), (lk_none _ _ Lf3).
+                 unfold frefs, dset. rewrite <- Lf1, Ng_del_same. auto.
+              -- intros f0 Hne. auto.
+        - apply smem_nIn in Es. inversion E2; subst on'; clear E2. simpl. split; [intro; contradiction | auto]. }
+      destruct Hon as [Hon1 Hon2].
+      split; [|split; [|split]].
+      * intros f0 Hn. assert (Hne : f0 <> f) by (intro E; apply Hn; left; auto).
+        assert (HnP : ~ In f0 P) by (intro E; apply Hn; right; auto).
+        destruct (L1 f0 HnP) as [A [B C]]. destruct (Hon2 f0 Hne) as [D E].
+        rewrite aget_dset_other by exact Hne. rewrite D, E. auto.
+      * intros f0 [E|Hin] Hr.
+        -- subst f0. apply Hon1. exact Hr.
+        -- assert (Hne : f0 <> f) by (intro E; subst f0; contradiction).
+           destruct (L2 f0 Hin Hr) as [A B]. destruct (Hon2 f0 Hne) as [D E].
+           unfold lk. rewrite D, E. fold (lk f0 (u_orig a)). fold (lk f0 (u_new a)).
+           rewrite A, B. split; [reflexivity|]. symmetry. apply frefs_dset_other. exact Hne.
+      * intros Hin. destruct (N.eqb f (c_name ci)) eqn:Ef.
+        -- apply N.eqb_eq in Ef. subst f.
+           destruct (as_name (aget N.eqb (c_name ci) (u_data a))) as [on|] eqn:A; simpl in E1; [|discriminate].
+           destruct (as_name v) as [nn|] eqn:B; simpl in E1; [|discriminate].
+           destruct (upd_name e s i hc ci on nn) as [t|] eqn:C; simpl in E1; [|discriminate].
+           inversion E1; subst names; clear E1. exists t. split; [reflexivity|].
+           rewrite Lf1 in A. apply as_name_ok in A. rewrite A.
+           rewrite (name_of_dset_same ci (u_data a) v nn B). apply upd_name_spec. exact C.
+        -- apply N.eqb_neq in Ef. inversion E1; subst names; clear E1.
+           destruct Hin as [E|Hin]; [congruence|].
+           destruct (L3 Hin) as [t [A B]]. exists t. split; [exact A|].
+           rewrite name_of_dset_other by exact Ef. exact B.
+      * intros Hn. destruct (N.eqb f (c_name ci)) eqn:Ef.
+        -- apply N.eqb_eq in Ef. exfalso. apply Hn. left. exact Ef.
+        -- inversion E1; subst names. apply L4. intro Hin. apply Hn. right. exact Hin.
+Qed.
+
+Lemma update_obj_unfold e s hc i u : u <> [] ->
+  update_obj e s hc i u =
+  (ci <- class_info e hc ;;
+   let d0 := match aget N.eqb i (s_data s) with Some d => d | None => [] end in
+   a <- upd_loop e s i hc ci u {| u_data := d0; u_names := None; u_orig := []; u_new := [] |} ;;
+   rf <- upd_refs i hc (c_refs ci) (u_orig a) (u_new a) (s_refs s) ;;
+   inl (with_names (u_names a)
+          {| s_data := aset N.eqb i (u_data a) (s_data s); s_type := s_type s;
+             s_name := s_name s; s_short := s_short s; s_glob := s_glob s; s_refs := rf |})).
+Proof. intro H. destruct u; [congruence | reflexivity]. Qed.
+
+Lemma update_obj_chg e s hc i u s' :
+  wf_env e -> Inv e s -> NoDup (map fst u) -> gty s i = Some hc -> u <> [] ->
+  update_obj e s hc i u = inl s' ->
+  exists ci d d1, Chg e s s' i hc ci (Some d) (Some d1).
+Proof.
+  intros We HI Hnd Hty Hne H. rewrite (update_obj_unfold _ _ _ _ _ Hne) in H.
+  destruct (class_info e hc) as [ci|] eqn:Eci; cbn [bind] in H; [|discriminate].
+  apply class_info_ok in Eci. destruct (We hc ci Eci) as [Hndr Hnr].
+  destruct (gdata s i) as [d|] eqn:Ed.
+  2: { apply (i_dom _ _ HI) in Ed. congruence. }
+  unfold gdata in Ed. rewrite Ed in H. cbv zeta in H.
+  destruct (upd_loop e s i hc ci u {| u_data := d; u_names := None; u_orig := []; u_new := [] |})
+    as [a|] eqn:El; cbn [bind] in H; [|discriminate].
+  destruct (upd_refs i hc (c_refs ci) (u_orig a) (u_new a) (s_refs s)) as [rf|] eqn:Eu; cbn [bind] in H; [|discriminate].
+  inversion H; subst s'; clear H.
+  destruct (upd_loop_spec e s i hc ci d u _ a [] El Hnd) as [P' [HP' [L1 [L2 [L3 L4]]]]].
+  { intros f _ []. }
+  { unfold LI. cbn [u_data u_names u_orig u_new]. split; [|split; [|split]].
+    - intros f _. simpl. auto.
+    - intros f [].
+    - intros [].
+    - intros _. reflexivity. }
+  set (s0 := {| s_data := aset N.eqb i (u_data a) (s_data s); s_type := s_type s;
+                s_name := s_name s; s_short := s_short s; s_glob := s_glob s; s_refs := rf |}).
+  destruct (with_names_data (u_names a) s0) as [Wd [Wt Wr]].
+  exists ci, d, (u_data a).
+  destruct (refs_chg e s i hc ci (Some d) (Some (u_data a)) (u_orig a) (u_new a) rf HI Eci Hndr Ed Hty Eu)
+    as [Hr1 Hr2].
+  { intros f Hf. simpl. destruct (in_dec N.eq_dec f P') as [Hin|Hin].
+    - right. destruct (L2 f Hin Hf) as [A B]. auto.
+    - left. destruct (L1 f Hin) as [A [B C]]. rewrite (lk_none _ _ B), (lk_none _ _ C).
+      split; [reflexivity|]. split; [reflexivity|]. unfold frefs. rewrite A. reflexivity. }
+  constructor.
+  - exact Eci.
+  - exact Ed.
+  - exact Hty.
+  - intro j. unfold gdata. rewrite Wd. simpl. apply Ng_set_if.
+  - intro j. unfold gty. rewrite Wt. simpl. unfold gty in Hty.
+    destruct (N.eqb j i) eqn:E; [apply N.eqb_eq in E; subst j; exact Hty | reflexivity].
+  - destruct (in_dec N.eq_dec (c_name ci) P') as [Hin|Hin].
+    + destruct (L3 Hin) as [t [A B]]. right. rewrite A. simpl. rewrite names3_eta. exact B.
+    + rewrite (L4 Hin). left. simpl. repeat split; try reflexivity.
+      unfold name_of. destruct (L1 _ Hin) as [A _]. rewrite A. reflexivity.
+  - rewrite Wr. exact Hr1.
+  - rewrite Wr. exact Hr2.
+Qed.
+
+(* ------------------------------------------------------------------ *)
+(* the index invariant is preserved by every accepted operation          *)
+
+(* scope of the theorem (what a caller holding handles from get_by_id does):
+   update_obj is applied to an object that is in the schema (the raw method would otherwise
+   create a data entry without a type entry), the updates mapping has distinct keys, and
+   handles passed to update_obj / delete / discard carry the class the object is stored with *)
+Definition wf_op (s : schema) (o : op) : Prop :=
+  match o with
+  | OUpdate hc i u => NoDup (map fst u) /\ (u = [] \/ gty s i = Some hc)
+  | ODelete hc i => gty s i = Some hc \/ gty s i = None
+  | ODiscard hc i => gty s i = Some hc \/ gty s i = None
+  | _ => True
+  end.
+
+Lemma add_is_add_raw e s i c d s' : add e s i c d = inl s' -> add_raw e s i c d = inl s'.
+Proof.
+  unfold add. destruct (class_info e c) as [ci|]; simpl; [|discriminate].
+  destruct (check_unreduced d (c_refs ci)) as [[]|]; simpl; [auto | discriminate].
+Qed.
+
+Lemma delete_absent e s hc i : Inv e s -> gty s i = None -> delete e s hc i = inr EInvalidRef.
+Proof.
+  intros HI H. apply (i_dom _ _ HI) in H. unfold delete. unfold gdata in H. rewrite H. reflexivity.
+Qed.
+
+(* every accepted op is the identity, a delist, or a single-object change *)
+Lemma step_cases e s o s' :
+  wf_env e -> Inv e s -> wf_op s o -> step e s o = inl s' ->
+  s' = s \/ (exists n, o = ODelist n) \/ exists i c ci od nd, Chg e s s' i c ci od nd.
+Proof.
+  intros We HI Hwf H. destruct o as [raw i c d|hc i u|hc i f v|hc i f|hc i|hc i|n]; simpl in H.
+  - assert (Ha : add_raw e s i c d = inl s') by (destruct raw; [exact H | apply add_is_add_raw; exact H]).
+    destruct (add_raw_chg _ _ _ _ _ _ We HI Ha) as [ci HC]. right. right. exists i, c, ci, None, (Some d). exact HC.
+  - destruct Hwf as [Hnd [->|Hty]]; [inversion H; auto|].
+    destruct u as [|p u0] eqn:Eu; [inversion H; auto|]. rewrite <- Eu in *.
+    assert (Hne : u <> []) by (rewrite Eu; discriminate).
+    destruct (update_obj_chg _ _ _ _ _ _ We HI Hnd Hty Hne H) as [ci [d0 [d1 HC]]].
+    right. right. exists i, hc, ci, (Some d0), (Some d1). exact HC.
+  - destruct (set_field_chg _ _ _ _ _ _ We HI H) as [c [ci [d HC]]].
+    right. right. exists i, c, ci, (Some d), (Some (dset d f v)). exact HC.
+  - destruct (unset_field_chg _ _ _ _ _ We HI H) as [->|[c [ci [d HC]]]]; [auto|].
+    right. right. exists i, c, ci, (Some d), (Some (dset d f None)). exact HC.
+  - destruct Hwf as [Hty|Hty].
+    + destruct (delete_chg _ _ _ _ _ We HI Hty H) as [ci [d HC]].
+      right. right. exists i, hc, ci, (Some d), None. exact HC.
+    + rewrite (delete_absent _ _ _ _ HI Hty) in H. discriminate.
+  - unfold discard in H. destruct (amem N.eqb i (s_data s)) eqn:Em; [|inversion H; auto].
+    destruct Hwf as [Hty|Hty].
+    + destruct (delete_chg _ _ _ _ _ We HI Hty H) as [ci [d HC]].
+      right. right. exists i, hc, ci, (Some d), None. exact HC.
+    + rewrite (delete_absent _ _ _ _ HI Hty) in H. discriminate.
+  - right. left. exists n. reflexivity.
+Qed.
+
+Theorem step_inv e s o s' :
+  wf_env e -> Inv e s -> wf_op s o -> step e s o = inl s' -> Inv e s'.
+Proof.
+  intros We HI Hwf H.
+  destruct (step_cases _ _ _ _ We HI Hwf H) as [->|[[n ->]|[i [c [ci [od [nd HC]]]]]]].
+  - exact HI.
+  - simpl in H. eapply delist_inv; eassumption.
+  - exact (master HI HC).
+Qed.
+
+Theorem step_complete e s o s' :
+  wf_env e -> Inv e s -> NameComplete e s -> wf_op s o -> (forall n, o <> ODelist n) ->
+  step e s o = inl s' -> NameComplete e s'.
+Proof.
+  intros We HI HN Hwf Hnd H.
+  destruct (step_cases _ _ _ _ We HI Hwf H) as [->|[[n ->]|[i [c [ci [od [nd HC]]]]]]].
+  - exact HN.
+  - exfalso. apply (Hnd n). reflexivity.
+  - exact (master_complete HI HN HC).
+Qed.
+
+(* histories *)
+Fixpoint wf_hist (e : env) (s : schema) (os : list op) : Prop :=
+  match os with
+  | [] => True
+  | o :: os' => wf_op s o /\ wf_hist e (apply e s o) os'
+  end.
+
+Lemma apply_inv e s o : wf_env e -> Inv e s -> wf_op s o -> Inv e (apply e s o).
+Proof.
+  intros We HI Hwf. unfold apply. destruct (step e s o) as [s'|] eqn:E; [|exact HI].
+  eapply step_inv; eassumption.
+Qed.
+
+Theorem run_inv e : wf_env e -> forall os s, Inv e s -> wf_hist e s os -> Inv e (run e s os).
+Proof.
+  intros We os. induction os as [|o os IH]; intros s HI Hwf; simpl.
+  - exact HI.
+  - destruct Hwf as [H1 H2]. apply IH; [apply apply_inv; assumption | exact H2].
+Qed.
+
+Definition no_delist (os : list op) : Prop := forall n, ~ In (ODelist n) os.
+
+Theorem run_complete e : wf_env e -> forall os s,
+  Inv e s -> NameComplete e s -> wf_hist e s os -> no_delist os -> NameComplete e (run e s os).
+Proof.
+  intros We os. induction os as [|o os IH]; intros s HI HN Hwf Hnd; simpl.
+  - exact HN.
+  - destruct Hwf as [H1 H2]. apply IH.
+    + apply apply_inv; assumption.
+    + unfold apply. destruct (step e s o) as [s'|] eqn:E; [|exact HN].
+      eapply step_complete; try eassumption. intros n En. apply (Hnd n). left. auto.
+    + exact H2.
+    + intros n Hin. apply (Hnd n). right. exact Hin.
+Qed.
